@@ -189,13 +189,25 @@ func cmdC11(seed uint64, tier, outdir string) {
 	}
 	// a word the tokenizer rewrites (https -> http), written with an upper-case character reference, inside a license
 	for _, in := range ins[:len(ins)/8+1] {
-		ws := strings.Split(string(in.data), " ")
-		if len(ws) < 8 {
+		// inserted in the middle of a line that is not a notice line (a word in front of "Copyright" changes whether the
+		// line is an ignorable notice, which is the business of another known finding)
+		ls := strings.Split(string(in.data), "\n")
+		var ok []int
+		for li, l := range ls {
+			low := strings.ToLower(l)
+			if len(strings.Fields(l)) >= 4 && !strings.Contains(low, "opyright") && !strings.Contains(low, "(c)") && !strings.Contains(l, "©") && !strings.Contains(l, "&") {
+				ok = append(ok, li)
+			}
+		}
+		if len(ok) == 0 {
 			continue
 		}
-		i := 2 + r.intn(len(ws)-4)
+		li := ok[r.intn(len(ok))]
+		ws := strings.Fields(ls[li])
+		i := 1 + r.intn(len(ws)-2)
 		ws = append(ws[:i:i], append([]string{httpsEntityWord(r)}, ws[i:]...)...)
-		ins = append(ins, input{"https-entity-word:" + in.name, []byte(strings.Join(ws, " "))})
+		ls[li] = strings.Join(ws, " ")
+		ins = append(ins, input{"https-entity-word:" + in.name, []byte(strings.Join(ls, "\n"))})
 	}
 	nLicenseBearing := len(ins)
 	for i := 0; i < n/2; i++ {
